@@ -438,10 +438,13 @@ def select(table: Table, *cols: Col | ColName | str) -> Pipeable:
             )
 
     # a column named twice is selected once (at its first position)
-    selected = {col._uuid: col for col in reversed([preprocess_arg(col, table) for col in cols])}
+    selected = {}
+    for col in cols:
+        col = preprocess_arg(col, table)
+        selected.setdefault(col._uuid, col)
 
     new = copy.copy(table)
-    new._ast = Select(table._ast, list(reversed(selected.values())))
+    new._ast = Select(table._ast, list(selected.values()))
 
     return new
 
